@@ -296,7 +296,10 @@ def run(run):
     ]
     run.rule = ("real _DNF.extract_pq_filters vs the proved model on comparison/and/or trees (depth <= 3, incl. literal-on-the-left and non-convertible leaves); "
                 "datasets (float with nulls / int / str with nulls / datetime; range, named int and string index; 1-6 files) x both readers x calculate_divisions x projections x 16 filter trees "
-                "x user filters x partition subsets: pushed-down plan vs in-memory pandas on the written frame; round trip; lengths; overwrite refusal; unsorted statistics; non-trivial = and/or tree / executed case")
+                "x user filters x partition subsets: pushed-down plan vs in-memory pandas on the written frame; round trip; lengths; overwrite refusal; unsorted statistics; "
+                "piece layouts: datasets with several row groups per file (row_group_size, equal/unequal files, with/without _metadata, 4 index kinds, nulls) x split_row_groups True/False/int/adaptive/infer "
+                "x aggregate_files x blocksize x calculate_divisions x both readers: len/shape/size/Lengths/partition-subset lengths/projections/pushed and user filters/divisions "
+                "vs the partitions of the unoptimized plan computed in memory and the written frame; non-trivial = and/or tree / executed case")
     run.proofs("PropC18.v")
     quick = run.tier == "quick"
     import minmax
@@ -309,5 +312,29 @@ def run(run):
         rt.dx.from_pandas(pd.DataFrame({"a": [1.0, 2.0, 3.0], "b": [1, 2, 3]}), npartitions=1).to_parquet(p0)
         dnf_layer(run, m, rt, p0, quick)
         e2e(run, rt, tmp, quick)
+        import c18_layout
+        c18_layout.layout_family(run, rt, tmp, quick)
     finally:
         shutil.rmtree(tmp, ignore_errors=True)
+
+
+def replay(path):
+    """./check C18 --replay file: re-run the failing (dataset, read options) of a piece-layout case."""
+    import json
+    import rt
+    with open(path) as f:
+        rec = json.load(f)
+    case = rec.get("case") or rec.get("replay") or rec.get("input") or rec
+    if not isinstance(case, dict) or case.get("kind") != "layout":
+        print("replay is implemented for the piece-layout cases (kind=layout) only")
+        return 2
+    import c18_layout
+    tmp = tempfile.mkdtemp(prefix="c18r_", dir=common.BUILD)
+    try:
+        out = c18_layout.replay_case(rt, case, tmp)
+    finally:
+        shutil.rmtree(tmp, ignore_errors=True)
+    for w in out[:20]:
+        print("VIOLATION", w)
+    print("replay: %d violation(s)" % len(out))
+    return 1 if out else 0
